@@ -566,6 +566,20 @@ class Evaluator:
             return self.call(e, st)
         if isinstance(e, ast.Subscript):
             base = self.ev(e.value, st)
+            # numpy broadcasting roles written with newaxis (same as outer(x, ones) / outer(ones, x), DESIGN 2.5):
+            # x[:, newaxis][c, p] = x[c] (cut role);  x[newaxis, :][c, p] = x[p] (pump role = the bare 1-D value)
+            if isinstance(e.slice, ast.Tuple) and len(e.slice.elts) == 2 and isinstance(base, Rat):
+                def full_slice(x):
+                    return isinstance(x, ast.Slice) and x.lower is None and x.upper is None and x.step is None
+
+                def new_axis(x):
+                    return (isinstance(x, ast.Name) and x.id == 'newaxis') or (isinstance(x, ast.Constant) and x.value is None) or \
+                        (isinstance(x, ast.Attribute) and x.attr == 'newaxis')
+                a0, a1 = e.slice.elts
+                if full_slice(a0) and new_axis(a1):
+                    return lem_cut(base)
+                if new_axis(a0) and full_slice(a1):
+                    return base
             key = self.slice_key(e.slice, st)
             if isinstance(base, (tuple, list)) and isinstance(e.slice, ast.Constant) and isinstance(e.slice.value, int):
                 try:
